@@ -106,6 +106,7 @@ def run_tlc(
         "java",
         "-XX:+UseParallelGC",
         f"-Xmx{heap}",
+        "-Xss64m",
         "-cp",
         "/opt/veriftools/tla/tla2tools.jar:/opt/veriftools/tla/CommunityModules-deps.jar",
     ]
@@ -357,7 +358,7 @@ def outcome(fn, *a, **kw):
     except ValueError as e:
         return ("ValueError", type(e).__name__)
     except BaseException as e:  # noqa
-        if isinstance(e, (KeyboardInterrupt, SystemExit, MemoryError)):
+        if isinstance(e, (KeyboardInterrupt, SystemExit, MemoryError)) or type(e).__name__ == "CallTimeout":
             raise
         return ("other", type(e).__name__)
 
@@ -417,3 +418,28 @@ def tlc_judge(ctx: Ctx, module: str, consts: str, records: list, name: str = "tr
         bad = list(bad.values())
     ctx.traces += len(records)
     return [(b["i"] - 1, list(b["failed"]) if not isinstance(b["failed"], dict) else list(b["failed"].values())) for b in bad]
+
+
+# --------------------------------------------------------------------------- watchdog
+
+
+class CallTimeout(BaseException):
+    """Raised inside the call by the watchdog; BaseException so that library `except Exception` cannot swallow it."""
+
+
+def guarded(fn, *a, seconds=5.0, **kw):
+    """outcome() with a wall-clock budget: ('timeout', seconds) if the call does not return."""
+    import signal
+
+    def onalarm(signum, frame):
+        raise CallTimeout()
+
+    old = signal.signal(signal.SIGALRM, onalarm)
+    signal.setitimer(signal.ITIMER_REAL, seconds)
+    try:
+        return outcome(fn, *a, **kw)
+    except CallTimeout:
+        return ("timeout", seconds)
+    finally:
+        signal.setitimer(signal.ITIMER_REAL, 0)
+        signal.signal(signal.SIGALRM, old)
